@@ -616,6 +616,9 @@ def fold_constants(tree):
             if isinstance(node.op, ast.Add) and isinstance(node.left, ast.Constant) and isinstance(node.right, ast.Constant) \
                     and type(node.left.value) is type(node.right.value) and isinstance(node.left.value, (str, bytes)):
                 return ast.copy_location(ast.Constant(value=node.left.value + node.right.value), node)
+            if isinstance(node.op, ast.Add) and isinstance(node.left, ast.Tuple) and isinstance(node.right, ast.Tuple) \
+                    and isinstance(getattr(node.left, "ctx", ast.Load()), ast.Load):
+                return ast.copy_location(ast.Tuple(elts=list(node.left.elts) + list(node.right.elts), ctx=ast.Load()), node)
             return node
     F().visit(tree)
 
@@ -648,8 +651,6 @@ def normalize_module(tree, module_name, sigs=None):
         return classes.get(name, {})
     n_inl = inline_new_helpers(tree, module_name, foc)
     n_inl += inline_expression_helpers(tree, module_name, foc, base)
-    if n_inl:
-        fold_constants(tree)
     n_exp = 0
     for n in tree.body:
         if isinstance(n, ast.ClassDef):
@@ -658,4 +659,6 @@ def normalize_module(tree, module_name, sigs=None):
         for name, fdef in fns.items():
             q = "%s:%s.%s" % (module_name, cname, name) if cname else "%s:%s" % (module_name, name)
             n_exp += expand_locals(fdef, keep=set(base.get(q, ())) if q in base else ())
+    if n_inl or n_exp:
+        fold_constants(tree)      # constants that met through inlining / substitution
     return n_inl, n_exp
